@@ -10,9 +10,9 @@ import random
 import xml.etree.ElementTree as ET
 from typing import Any, Dict, Iterable, List, Optional
 
-from harness.core import Case, Check, Finding, VERIF, short
+from harness.core import Case, Check, Finding, VERIF, call, canon, short
 from harness.props._doc import (DocCheck, Gen, page_class, random_mutation, r_doc, region_state, fix_regions,
-                                mark_nonconformant)
+                                mark_nonconformant, PAGE_META_TAGS, dump_scan, dump_extra, real_todict)
 
 CORPUS = os.path.join(VERIF, 'harness', 'corpus', 'C01')
 
@@ -67,11 +67,14 @@ def read_doc(xml: str):
     page = _kids(root, 'Page')[0]
     md = _kids(root, 'Metadata')
     meta = {}
+    filled = set()          # the Metadata children that carry anything (text, attributes or children)
     if md:
         for k in md[0]:
             meta[_tag(k)] = k.text or ''
+            if (k.text or '').strip() or len(k) or k.attrib:
+                filled.add(_tag(k))
     return {'image_filename': page.get('imageFilename'), 'width': page.get('imageWidth'), 'height': page.get('imageHeight'),
-            'meta': meta, 'regions': [read_region(r) for r in _kids(page, 'TextRegion')],
+            'meta': meta, 'meta_filled': sorted(filled), 'regions': [read_region(r) for r in _kids(page, 'TextRegion')],
             'has_ro': bool(_kids(page, 'ReadingOrder'))}
 
 
@@ -103,6 +106,70 @@ def instant(s: str) -> Optional[float]:
     return dparse(s).timestamp()
 
 
+# ---------------------------------------------------------------------------------------
+# histories (WAVE 4): several documents parsed in ONE process, in a given order, through every entry point
+# ---------------------------------------------------------------------------------------
+
+ROUTES = ('data', 'file', 'json', 'json-again')
+
+
+def seq_worker(arg: Dict[str, Any]) -> Dict[str, Any]:
+    """Runs one history on the real code.  arg = {'steps': [{'xml', 'xml_c', 'fname', 'route'}, …]}.
+    Called in a pristine child process (harness/props/_hermetic.py) so that the outcome depends on THIS history
+    only; the working directory of that child is a scratch directory (route 'file' reads ./<fname> from it).
+      data        parse_pagexml_file(fname, pagexml_data=xml)          (the form named in observe_at)
+      file        the text written to ./fname, parse_pagexml_file(fname)
+      json        parse_pagexml_json(fname, xmltodict.parse(xml))       (the function behind it, named in the anchors)
+      json-again  the same, and then AGAIN on the very same (by then used) dict: the second scan is the one dumped
+    After the last step every scan object built so far is read once more (after its JSON view has been taken):
+    'unchanged'[i] says whether step i's scan still dumps as it did right after its own parse."""
+    import shutil
+    import tempfile
+    import xmltodict
+    from pagexml import parser
+    scratch = tempfile.mkdtemp(prefix='verif-c01-seq-')
+    old_cwd = os.getcwd()
+    os.chdir(scratch)
+    try:
+        outs, scans = [], []
+        for st in arg['steps']:
+            xml, fname, route = st['xml'], st['fname'], st['route']
+            holder: Dict[str, Any] = {}
+
+            def f():
+                if route == 'data':
+                    scan = parser.parse_pagexml_file(fname, pagexml_data=xml)
+                elif route == 'file':
+                    os.makedirs(os.path.dirname(fname) or '.', exist_ok=True)
+                    with open(fname, 'wt', encoding='utf-8') as fh:
+                        fh.write(xml)
+                    scan = parser.parse_pagexml_file(fname)
+                else:
+                    d = xmltodict.parse(xml)
+                    scan = parser.parse_pagexml_json(fname, d)
+                    if route == 'json-again':
+                        scan = parser.parse_pagexml_json(fname, d)
+                holder['scan'] = scan
+                return {'scan': dump_scan(scan), 'extra': dump_extra(scan)}
+            o: Dict[str, Any] = {'real': call(f), 'xml': xml, 'dict_s': real_todict(xml), 'route': route, 'fname': fname}
+            if st.get('xml_c') is not None:
+                o['dict_c'] = real_todict(st['xml_c'])
+            outs.append(canon(o))
+            scans.append(holder.get('scan'))
+        unchanged = []
+        for o, scan in zip(outs, scans):
+            if scan is None:
+                unchanged.append(None)
+                continue
+            call(lambda: scan.json)               # a used object: its JSON view has been taken
+            again = call(lambda: canon({'scan': dump_scan(scan), 'extra': dump_extra(scan)}))
+            unchanged.append(again == o['real'])
+        return {'steps': outs, 'unchanged': unchanged}
+    finally:
+        os.chdir(old_cwd)
+        shutil.rmtree(scratch, ignore_errors=True)
+
+
 class C01(DocCheck):
     pid = 'C01'
     model_pid = 'C01'
@@ -128,7 +195,13 @@ class C01(DocCheck):
         'documents with tables: C08_scan_lossless; correspondence compared at the level of the statement: two rejections agree '
         'whatever the exception classes (only raising-or-not is stated), scan.metadata must hold every key of the model with the '
         'same value but may hold more, a falsy scan.reading_order is one value (None = {}), mutated documents that are no longer '
-        'conformant (mandatory attribute / child missing, untyped number, repeated id) are outside the quantifier: recorded only')
+        'conformant (mandatory attribute / child missing, untyped number, repeated id) are outside the quantifier: recorded only; '
+        'keys of scan.metadata named like a PAGE Metadata child (Creator, Created, LastChange, Comments, UserDefined, MetadataItem) '
+        'must be exactly the model\'s; HISTORIES (wave 4, case kind seq): several documents parsed one after the other in ONE pristine '
+        'process (a forked child of a helper that has imported the library and called nothing), in varying order and with repeats, '
+        'through parse_pagexml_file(data) / parse_pagexml_file(path) / parse_pagexml_json(dict) / the same dict twice; the model is a '
+        'pure function of the document, so its one answer is compared with every parse of it, every parse is judged by the oracle, '
+        'and every scan is re-read at the end (after its JSON view was taken)')
     assumptions = [
         'xmltodict.parse with default options behaves as toDict (validated on every generated document, canonical and shuffled)',
         'the hull routine is a function of its input point list (C09); its answers are supplied to the model as a table',
@@ -146,6 +219,7 @@ class C01(DocCheck):
             body = json.load(open(path, encoding='utf-8'))
             c = body['case']
             out.append(Case(c['kind'], c['input'], list(c.get('tags', [])) + ['corpus']))
+        n_corpus = len(out)
         gen = Gen(rng)
         seq = itertools.count(1)
 
@@ -204,7 +278,88 @@ class C01(DocCheck):
                 out.append(Case('mut', {'src': src, 'fname': 'page_%d.xml' % next(seq), 'mut': m}, ['malformed', 'mut:' + m['op']]))
         # "Parsing any conformant PageXML document …": a mutated tree that is no longer conformant is outside the
         # quantifier (mirrored, differences recorded only); mutations that leave it conformant stay compared exactly
-        return mark_nonconformant(out)
+        out = mark_nonconformant(out)
+        # ---- WAVE 4 (generated LAST so that the streams above are what they were; the histories are PLACED right
+        #      after the corpus: when a failure shows in a history and in the single-document stream under the same
+        #      key, the history — which is evaluated in a pristine process and so replays exactly — is what is kept)
+        # -- rare shapes: optional parts of TextEquiv crossed at every level (conf with and without text, PlainText)
+        for level, conf, uni, plain in itertools.product(('line', 'word', 'region'), (None, '0.12', '0'), ('Anno 1650', ''),
+                                                         (None, 'pl')):
+            doc(self.te_lattice_doc(gen, level, conf, uni, plain), 'lattice-te', 'expect-mirror')
+        # -- rare shapes: more than ten children at one level; lines with and without a Word layer side by side
+        for _ in range(4 if tier == 'quick' else 40):
+            doc(self.wide_doc(gen, rng), 'wide', 'expect-mirror')
+        histories = self.seq_cases(rng, gen, tier)
+        return out[:n_corpus] + histories + out[n_corpus:]
+
+    # ---------------------------------------------------------------- WAVE 4 generators
+    def te_lattice_doc(self, gen: Gen, level, conf, uni, plain):
+        te = {'conf': conf, 'plain': plain, 'unicode': uni}
+        other = {'conf': '0.9', 'plain': None, 'unicode': 'den 3 Meij'}
+        word = {'id': gen.uid('w'), 'custom': None, 'coords': gen.rect(), 'te': te if level == 'word' else other}
+        mk = lambda t, ws: {'id': gen.uid('l'), 'custom': None, 'xheight': None, 'coords': gen.rect(),  # noqa: E731
+                            'baseline': gen.polyline(), 'te': t, 'words': ws}
+        lines = [mk(other, []), mk(te if level == 'line' else other, [word] if level == 'word' else []), mk(other, [])]
+        region = {'id': 'r', 'orientation': None, 'custom': None, 'coords': gen.rect(), 'te': te if level == 'region' else None,
+                  'lines_first': True, 'lines': lines, 'subs': []}
+        return self.bare_page([region])
+
+    def wide_doc(self, gen: Gen, rng: random.Random):
+        src = gen.page(depth=1, nregions=rng.choice([1, 2, 11, 14]))
+        src['ro'] = {'kind': 'absent'}
+        if not src['regions']:
+            return src
+        r = rng.choice(src['regions'])
+        r['lines'] = [gen.line() for _ in range(rng.randint(11, 24))]
+        for i, l in enumerate(r['lines']):            # mixed: Word layer on some lines only, one line with many words
+            l['words'] = [] if i % 3 == 0 else l['words']
+        rng.choice(r['lines'])['words'] = [gen.mkword() for _ in range(rng.randint(11, 16))]
+        if rng.random() < 0.5:
+            r['subs'] = [gen.conformant_region(0) for _ in range(rng.randint(11, 13))]
+        return src
+
+    META_VALUES = {'creator': ['Transkribus', 'Loghi', 'PyLaia'], 'created': ['2021-03-04T10:11:12', '2023-07-08T09:10:11'],
+                   'last_change': ['2022-05-06T01:02:03', '2024-02-03T10:11:12'], 'comments': ['checked by hand', 'second pass']}
+    FNAMES = ['page_%d.xml', 'a/page_%d.xml', 'b/page_%d.xml', 'a/b/page.xml', 'b/page.xml', 'a/page.xml']
+
+    def seq_cases(self, rng: random.Random, gen: Gen, tier: str) -> List[Case]:
+        """histories: documents parsed one after the other in one (pristine) process, in varying order, with repeats,
+        through every entry point; every parse is judged, and every scan is read again at the end"""
+        out: List[Case] = []
+        n = itertools.count(1)
+
+        def fname():
+            f = rng.choice(self.FNAMES)
+            return f % next(n) if '%d' in f else f
+
+        def small(mask, which):
+            src = gen.page(depth=0, nregions=1)
+            src['ro'] = {'kind': 'absent'}
+            keys = ('creator', 'created', 'last_change', 'comments')
+            src['meta'] = {k: (self.META_VALUES[k][which % 2] if mask >> i & 1 else None) for i, k in enumerate(keys)}
+            if mask == 0 and rng.random() < 0.5:
+                src['meta'] = None                      # no Metadata element at all
+            return {'src': src, 'fname': fname(), 'seed': rng.randrange(10 ** 9)}
+        # (a) Metadata presence lattice: every pair of field subsets, A then B then A again
+        pairs = list(itertools.product(range(16), repeat=2))
+        if tier == 'quick':
+            pairs = rng.sample(pairs, 56) + [(15, 0), (15, 3), (12, 1), (3, 12)]
+        for a, b in pairs:
+            docs = [small(a, 0), small(b, 1)]
+            steps = [[0, rng.choice(ROUTES)], [1, rng.choice(ROUTES)], [0, rng.choice(ROUTES)]]
+            out.append(Case('seq', {'docs': docs, 'steps': steps}, ['history', 'seq-meta-lattice']))
+        # (b) random documents (nested regions, tables, reading orders), random order with repeats
+        for _ in range(30 if tier == 'quick' else 400):
+            k = rng.randint(2, 4)
+            docs = [{'src': gen.page(depth=rng.choice([0, 1, 2]), ntables=rng.choice([0, 0, 1])), 'fname': fname(),
+                     'seed': rng.randrange(10 ** 9)} for _ in range(k)]
+            if rng.random() < 0.3:                      # the same base name in different directories
+                docs[1]['fname'] = 'other/' + os.path.basename(docs[0]['fname'])
+            order = list(range(k)) + [rng.randrange(k) for _ in range(rng.randint(0, k))]
+            rng.shuffle(order)
+            steps = [[i, rng.choice(ROUTES)] for i in order]
+            out.append(Case('seq', {'docs': docs, 'steps': steps}, ['history', 'seq-random']))
+        return out
 
     def finding_tags(self, src):
         return ['class:' + c for c in page_class(src)]
@@ -251,35 +406,138 @@ class C01(DocCheck):
     def impl(self, case: Case) -> Any:
         if case.kind == 'tables':
             return {'space': [chr(c).isspace() for c in case.input['cps']]}
+        if case.kind == 'seq':
+            return self.impl_seq(case)
         return super().impl(case)
+
+    # -- histories
+    def seq_docs(self, case: Case) -> List[Case]:
+        """the single-document case of every step (same source, same rendering seed: the same text every time)"""
+        return [Case('doc', case.input['docs'][di], ['expect-mirror']) for di, _route in case.input['steps']]
+
+    def impl_seq(self, case: Case) -> Any:
+        steps = []
+        for (di, route), pseudo in zip(case.input['steps'], self.seq_docs(case)):
+            _canonical, _shuffled, text_c, text_s = self.trees(pseudo)
+            steps.append({'xml': text_s, 'xml_c': text_c, 'fname': pseudo.input['fname'], 'route': route})
+        from harness.props import _hermetic
+        try:
+            out = _hermetic.run_fresh(__name__, 'seq_worker', {'steps': steps}, timeout=120)
+            if isinstance(out, dict) and 'steps' in out:
+                out['hermetic'] = True
+            return out
+        except Exception:  # noqa — no pristine process available here: the history runs in this (used) one
+            out = seq_worker({'steps': steps})
+            out['hermetic'] = False
+            return out
 
     def requests(self, case: Case):
         if case.kind == 'tables':
             return [{'p': 'C01', 'op': 'is_space', 'args': {'cps': case.input['cps']}}]
+        if case.kind == 'seq':
+            # the model is a pure function of the document: the answer for a document is the answer for EVERY parse of it
+            return [r for pseudo in self.seq_docs(case) for r in super().requests(pseudo)]
         return super().requests(case)
+
+    @staticmethod
+    def _without_filename(ans):
+        """`metadata['filename']` is written by parse_pagexml_file, not by parse_pagexml_json (routes 'json*')"""
+        def strip(scan):
+            return dict(scan, metadata=[kv for kv in scan['metadata'] if kv[0] != 'filename'])
+        a = dict(ans)
+        if 'ok' in a and isinstance(a['ok'], dict) and 'metadata' in a['ok']:
+            a['ok'] = strip(a['ok'])
+        if 'parsed' in a and 'ok' in a['parsed']:
+            a['parsed'] = {'ok': strip(a['parsed']['ok'])}
+        if 'mirror' in a:
+            a['mirror'] = strip(a['mirror'])
+        return a
 
     def compare(self, case, impl_out, model_out):
         if case.kind == 'tables':
             bad = [c for c, a, b in zip(case.input['cps'], impl_out['space'], model_out[0]['ok']) if a != b]
             return None if not bad else f'str.isspace differs from isPySpace at code points {bad[:10]}'
+        if case.kind == 'seq':
+            if 'steps' not in impl_out:
+                return f'the history gave no answer: {short(impl_out)}'
+            pseudos = self.seq_docs(case)
+            per = len(model_out) // max(1, len(pseudos))
+            for i, (pseudo, o) in enumerate(zip(pseudos, impl_out['steps'])):
+                ans = model_out[i * per:(i + 1) * per]
+                if o['route'].startswith('json'):
+                    ans = [ans[0]] + [self._without_filename(a) for a in ans[1:]]
+                d = super().compare(pseudo, o, ans)
+                if d:
+                    return f'step {i} ({o["route"]}, {o["fname"]}): {d}'
+            return None
         return super().compare(case, impl_out, model_out)
 
     def nontrivial(self, case: Case) -> bool:
+        if case.kind == 'seq':
+            return any(d['src']['regions'] or d['src']['tables'] for d in case.input['docs']) and len(case.input['steps']) > 1
         return case.kind != 'tables' and super().nontrivial(case)
+
+    def shrink_candidates(self, case: Case):
+        if case.kind != 'seq':
+            yield from super().shrink_candidates(case)
+            return
+        inp = case.input
+        docs, steps = inp['docs'], inp['steps']
+
+        def tidy(docs2, steps2):
+            used = sorted({di for di, _ in steps2})
+            return Case('seq', {'docs': [docs2[i] for i in used], 'steps': [[used.index(di), r] for di, r in steps2]}, case.tags)
+        for i in range(len(steps)):
+            if len(steps) > 1:
+                yield tidy(docs, steps[:i] + steps[i + 1:])
+        for i, (di, r) in enumerate(steps):
+            if r != 'data':
+                yield tidy(docs, steps[:i] + [[di, 'data']] + steps[i + 1:])
+        for di, d in enumerate(docs):
+            for v in super().shrink_candidates(Case('doc', d, [])):
+                yield tidy(docs[:di] + [v.input] + docs[di + 1:], steps)
+            m = d['src'].get('meta')
+            if m:
+                for k in m:
+                    if m[k] is not None:
+                        yield tidy(docs[:di] + [dict(d, src=dict(d['src'], meta=dict(m, **{k: None})))] + docs[di + 1:], steps)
 
     # ---------------------------------------------------------------- oracle
     def oracle(self, case: Case, out: Any) -> List[Finding]:
-        if case.kind != 'doc':
-            return []          # malformed documents are outside the statement
         fs: List[Finding] = []
         seen = set()
+        if case.kind == 'seq':
+            # "Parsing ANY conformant PageXML document yields …": whatever was parsed before it in the same process, by
+            # whichever entry point — every parse of the history is judged like a single document, and the scans built
+            # earlier must still read the same after the later parses
+            def sbad(key, what):
+                if key not in seen:
+                    seen.add(key)
+                    fs.append(Finding(f'C01:{key}', what, case, {'what': what}))
+            if 'steps' not in out:
+                sbad('history-no-answer', f'the parser did not get through the history: {short(out)}')
+                return fs
+            for i, (pseudo, o) in enumerate(zip(self.seq_docs(case), out['steps'])):
+                where = f'step {i} of {len(out["steps"])} ({o["route"]}, {o["fname"]}): '
+                self.judge_doc(pseudo.input, o, lambda key, what, w=where: sbad(key, w + what))
+            for i, same in enumerate(out.get('unchanged') or []):
+                if same is False:
+                    sbad('scan-changed-by-later-parse', f'the scan of step {i} reads differently after the later parses of the '
+                                                        f'history (and after its JSON view was taken)')
+            return fs
+        if case.kind != 'doc':
+            return []          # malformed documents are outside the statement
 
         def bad(key, what):
             if key not in seen:
                 seen.add(key)
                 fs.append(Finding(f'C01:{key}', what, case, {'real': out['real'] if 'err' in out['real'] else '(scan)', 'what': what}))
+        self.judge_doc(case.input, out, bad)
+        return fs
 
-        src = case.input['src']
+    def judge_doc(self, doc_input: Dict[str, Any], out: Any, bad) -> None:
+        """the statement judged on ONE parse: `doc_input` = {'src', 'fname', …}, `out` = {'real', 'xml'}"""
+        src = doc_input['src']
         real = out['real']
         if 'err' in real:
             cls = page_class(src)
@@ -294,10 +552,10 @@ class C01(DocCheck):
                     f'a TextRegion without Coords whose sub-regions have no coordinates makes the parser raise {real["err"]}')
             else:
                 bad('raises:' + real['err'], f'conformant document rejected with {real["err"]}')
-            return fs
+            return
         scan, extra = real['ok']['scan'], real['ok']['extra']
         exp = read_doc(out['xml'])
-        fname = case.input.get('fname', 'doc.xml')
+        fname = doc_input.get('fname', 'doc.xml')
         # -- scan id, size
         want_id = exp['image_filename'] if exp['image_filename'] is not None else fname
         if scan['id'] != want_id:
@@ -326,10 +584,16 @@ class C01(DocCheck):
                     ok = False
                 if not ok:
                     bad('metadata:' + tag, f'{tag} {v!r} carried over as {got!r} (different instant)')
+        # "the Metadata fields are carried over": the fields of THIS file.  A key of scan.metadata that bears the name of
+        # a PAGE Metadata child element must come from such an element of the file (keys with other names — scan_id,
+        # namespace, filename, … — are the library's own and free)
+        for k, v in scan['metadata']:
+            if k in PAGE_META_TAGS and k not in exp['meta_filled'] and v not in ('', None):
+                bad('metadata-field-not-in-file', f'scan.metadata[{k!r}] = {short(v, 80)} but the Metadata element of the file has '
+                                                  f'{"an empty" if k in exp["meta"] else "no"} {k} (fields of the file: {exp["meta_filled"]})')
         # -- the text hierarchy
         exp_regions = [r for r in exp['regions']]
         self.cmp_regions(exp_regions, scan['regions'], 'page', bad, ordered=not exp['has_ro'])
-        return fs
 
     def cmp_regions(self, exp, got, where, bad, ordered=True):
         exp = [r for r in exp if has_content(r)]
